@@ -69,7 +69,11 @@ class MarkovChain(ABC):
             # set the interval such that updates are roughly once per second
             steps_taken = self.chain_length - start_length
             current_time = time()
-            update_interval = int(steps_taken / (current_time - start_time))
+            elapsed = current_time - start_time
+            # always take at least one step per iteration, however slow a step is,
+            # and keep the previous interval if the clock has not advanced yet
+            if elapsed > 0:
+                update_interval = max(int(steps_taken / elapsed), 1)
             self.ProgressPrinter.countdown_progress(end_time, steps_taken)
         self.ProgressPrinter.countdown_final(run_time, steps_taken)
 
